@@ -869,6 +869,9 @@ func runSeq(p Profile, seed uint64, cas int) *SeqRes {
 	if p.ManyBigFrees {
 		s.manyBigFrees()
 	}
+	if p.DeleteAll && p.DiskBlocks >= 8000 && !p.HighBlocks {
+		s.sparseTailScript()
+	}
 	if p.NearFull {
 		s.fillDisk()
 	}
@@ -1103,6 +1106,37 @@ func (s *Sess) shrinkBoundarySweep() {
 		}
 	}
 	s.res.Stats.Add("shrink-transaction-boundary-sweep")
+}
+
+// sparseTailScript: files whose data ends exactly at an index-range border
+// (file blocks 7|8 and 519|520) and whose size reaches beyond it without any
+// block there; one is truncated below the border, the other removed.  Every
+// block must come back (conservation is checked by the caller's fsck and at
+// the end by delete-everything).
+func (s *Sess) sparseTailScript() {
+	root := s.srv.Root
+	st := s.srv.N.VerifFsState()
+	s.srv.WaitIdle()
+	free0 := st.Balloc.NumFree()
+	for i, border := range []uint64{8, 8 + 512} {
+		name := fmt.Sprintf("tail%d", i)
+		r := s.exec(&Op{K: OpCreate, H: root, Name: name})
+		if r.Stat != stOK {
+			return
+		}
+		s.nextUid++
+		n := uint32(6 * BlockSize)
+		s.exec(&Op{K: OpWrite, H: r.FH, Off: (border - 6) * BlockSize, Count: n, DataLen: n, Uid: s.nextUid, Stable: 0})
+		s.exec(&Op{K: OpSetattr, H: r.FH, SetSize: true, Size: (border + 9) * BlockSize})
+		if i == 0 {
+			s.exec(&Op{K: OpSetattr, H: r.FH, SetSize: true, Size: 3 * BlockSize})
+		}
+		s.exec(&Op{K: OpRemove, H: root, Name: name})
+	}
+	s.srv.WaitIdle()
+	if f := st.Balloc.NumFree(); f != free0 {
+		s.viol("leak", "two files whose data ends at an index-range border (size beyond it) were truncated/removed: %d blocks free before, %d after", free0, f)
+	}
 }
 
 // manyBigFrees: several files that are too big to be freed inside the
